@@ -115,6 +115,8 @@ class Xform:
                     raise AnalysisError("dictxform: stores a missing value")
                 d[k] = v
                 return
+            if isinstance(t, ast.Name) and t.id == self.d and self._is_copy_of_d(s.value):
+                return  # `data = dict(data)` / copy(data) / deepcopy(data) / {**data}: the same abstract mapping
             if isinstance(t, ast.Name):
                 env[t.id] = ("val", self.expr(s.value, env))
                 return
@@ -133,6 +135,15 @@ class Xform:
 
     def _is_d(self, e) -> bool:
         return isinstance(e, ast.Name) and e.id == self.d
+
+    def _is_copy_of_d(self, e) -> bool:
+        if isinstance(e, ast.Call) and not e.keywords and len(e.args) == 1 and self._is_d(e.args[0]) and norm(e.func).rsplit(".", 1)[-1] in ("dict", "copy", "deepcopy"):
+            return True
+        if isinstance(e, ast.Call) and not e.keywords and not e.args and isinstance(e.func, ast.Attribute) and e.func.attr == "copy" and self._is_d(e.func.value):
+            return True
+        if isinstance(e, ast.Dict) and len(e.keys) == 1 and e.keys[0] is None and self._is_d(e.values[0]):
+            return True
+        return False
 
     def _is_d_method(self, c: ast.Call, names) -> bool:
         return isinstance(c.func, ast.Attribute) and c.func.attr in names and self._is_d(c.func.value)
